@@ -158,8 +158,10 @@ Proof.
   now rewrite (pget_merge_all _ (forallb_firstn psorted (S nd) dtr Hs)).
 Qed.
 
-(** the checker of one stream is sound for the clause of its class *)
-Theorem stream_ok_sound cl i h dtr ctr : stream_ok cl i h dtr ctr = true ->
+(** the checker of one stream is sound for the clause of its class ([leaky = false]: the
+    property's reading) *)
+Theorem stream_ok_sound cl i h0 dtr ctr : stream_ok false cl i h0 dtr ctr = true ->
+  let h := normalize h0 [] in
   match cl with
   | CSyncAdd => RunningDelta (sync_points h 0 0) (map s_points dtr) (map s_points ctr)
   | CSyncGauge => GaugeCycle (cycles_sync true i h []) (map s_points dtr) /\ GaugeSoFar (cycles_sync false i h []) (map s_points ctr)
@@ -167,7 +169,7 @@ Theorem stream_ok_sound cl i h dtr ctr : stream_ok cl i h dtr ctr = true ->
   | CAsyncGauge => GaugeCycle (cycles_async true i h []) (map s_points dtr) /\ GaugeCycle (cycles_async false i h []) (map s_points ctr)
   end.
 Proof.
-  unfold stream_ok. intros H. repeat (apply andb_true_iff in H as [H ?]).
+  unfold stream_ok. cbv zeta. intros H. repeat (apply andb_true_iff in H as [H ?]).
   destruct cl.
   - match goal with Hr : running_deltab _ _ _ = true, Hs : forallb psorted (map s_points dtr) = true |- _ =>
       exact (running_deltab_sound _ _ _ Hs Hr) end.
